@@ -186,7 +186,9 @@ func genC15(c *Ctx) *Plan {
 	for i := 0; i < r.rangeI(4, 14); i++ {
 		at := base + r.i64n(dur)
 		node := r.intn(n)
-		switch r.intn(6) {
+		switch r.intn(7) {
+		case 6:
+			p.Ops = append(p.Ops, Op{At: at, Kind: "plainstream", Node: node, A: int64(r.intn(3))})
 		case 0:
 			p.Ops = append(p.Ops, Op{At: at, Kind: "send", Node: node, B: int64(r.intn(n)), Buf: []byte(fmt.Sprintf("SECRET-USER-PAYLOAD-%d", i))})
 		case 1:
@@ -244,6 +246,27 @@ func execC15(c *Ctx) {
 			data := wrapStreamOpt(n, body, true, false)
 			_, _ = puppetStream(c.Sim, att, n, data, false, 300*time.Millisecond)
 			c.Reach("error_reply_provoked")
+			return true
+		case "plainstream":
+			// an unencrypted stream (a key-less peer, a cleartext TCP ping, garbage): whatever the
+			// node answers must still be sealed
+			if n == nil || n.m == nil || !n.running() {
+				return true
+			}
+			var body []byte
+			switch op.A {
+			case 0:
+				body = mustEncode(pingMsg, &ping{SeqNo: 99, Node: n.name})
+			case 1:
+				body = buildUserStream([]byte("cleartext-user-message"), -1)
+			default:
+				body = []byte{byte(pushPullMsg), 0x83, 0xa5}
+			}
+			if n.conf.Label != "" {
+				body = append(makeLabelHeader(n.conf.Label, nil), body...)
+			}
+			_, _ = puppetStream(c.Sim, att, n, body, false, 300*time.Millisecond)
+			c.Reach("cleartext_stream_sent")
 			return true
 		case "rotate":
 			if n == nil || n.conf == nil {
